@@ -111,6 +111,8 @@ inductive Act
   | spWake | spCheck | spCnt1 | spCnt2 (jam : Bool) | spRead | spGen | spSleep
   -- external generateWorkerWithMaximum(m) (PreAllocWorkerSize)
   | gen (m : Nat)
+  -- notifyWorkers() (called by the setters): posts the spawn token when workerCount < standby or jobs are queued
+  | notify
   -- workers
   | wCheck (w : Nat) | wRecv (w : Nat) | wNil (w : Nat) | wExpire (w : Nat)
   | wStart (w : Nat) | wFinish (w : Nat) | wPanic (w : Nat) (v : Nat) | wHandler (w : Nat)
@@ -241,6 +243,7 @@ def stepPool (c : Cfg) (s : St) : Act → Option St
     | .sleep => some { s with sp := .wait }
     | _ => none
   | .gen m => some (genWorker c s m)
+  | .notify => if s.count < c.standby ∨ qcount s > 0 then some { s with token := true } else some s
   | _ => none
 
 def stepW (c : Cfg) (s : St) : Act → Option St
@@ -299,7 +302,7 @@ def stepW (c : Cfg) (s : St) : Act → Option St
 def step (c : Cfg) (s : St) (a : Act) : Option St :=
   match a with
   | .submit _ | .sCheck _ | .sOffer _ _ | .sToken _ | .sLoopCheck _ | .sDeadline _ | .deadline _ => stepSub c s a
-  | .closeFlag | .closeQueue _ | .spWake | .spCheck | .spCnt1 | .spCnt2 _ | .spRead | .spGen | .spSleep | .gen _ =>
+  | .closeFlag | .closeQueue _ | .spWake | .spCheck | .spCnt1 | .spCnt2 _ | .spRead | .spGen | .spSleep | .gen _ | .notify =>
     stepPool c s a
   | _ => stepW c s a
 
